@@ -757,8 +757,79 @@ def gen_decorators(repo):
     return "\n".join(out) + "\n"
 
 
+def gen_sections(repo):
+    """load_section_plugins (core/config.py): exact statement skeleton; which constraint set seeds the dependencies, which
+    is inverted and how (kit/SectionsIR.v)"""
+    def src(e):
+        return ast.unparse(e).replace(" ", "")
+
+    def fail(what, node=None):
+        raise TranslationError("sections: %s%s" % (what, " (line %d)" % node.lineno if node is not None and hasattr(node, "lineno") else ""))
+
+    CSET = {"after": "SAfter", "before": "SBefore"}
+    with open(os.path.join(repo, "src", "cobald", "daemon", "core", "config.py")) as fh:
+        tree = ast.parse(fh.read())
+    fn = find_function(tree, "load_section_plugins")
+    b = list(fn.body)
+    if b and isinstance(b[0], ast.Expr) and isinstance(b[0].value, ast.Constant):
+        b = b[1:]
+    if len(b) != 4 or [a.arg for a in fn.args.args] != ["entry_point_group"]:
+        fail("load_section_plugins(entry_point_group): four statements", fn)
+
+    def assigned(x, name):
+        if isinstance(x, ast.AnnAssign) and x.value is not None and src(x.target) == name:
+            return x.value
+        if isinstance(x, ast.Assign) and len(x.targets) == 1 and src(x.targets[0]) == name:
+            return x.value
+        fail("expected an assignment to %s" % name, x)
+
+    v = assigned(b[0], "plugins")
+    if src(v) != "{plugin.section:pluginforplugininmap(SectionPlugin.load,get_entrypoints(entry_point_group))}":
+        fail("plugins = {plugin.section: plugin for plugin in map(SectionPlugin.load, get_entrypoints(entry_point_group))}", b[0])
+    v = assigned(b[1], "dependencies")
+    ok = (isinstance(v, ast.DictComp) and len(v.generators) == 1 and not v.generators[0].ifs and src(v.generators[0].iter) == "plugins.values()"
+          and isinstance(v.generators[0].target, ast.Name) and src(v.key) == v.generators[0].target.id + ".section"
+          and isinstance(v.value, ast.Call) and src(v.value.func) == "set" and len(v.value.args) == 1 and not v.value.keywords
+          and isinstance(v.value.args[0], ast.Attribute) and src(v.value.args[0].value) == v.generators[0].target.id
+          and v.value.args[0].attr in CSET)
+    if not ok:
+        fail("dependencies = {plugin.section: set(plugin.<after|before>) for plugin in plugins.values()}", b[1])
+    init = CSET[v.value.args[0].attr]
+    x = b[2]
+    ok = (isinstance(x, ast.For) and not x.orelse and src(x.iter) == "plugins.values()" and isinstance(x.target, ast.Name) and len(x.body) == 1
+          and isinstance(x.body[0], ast.For) and not x.body[0].orelse and isinstance(x.body[0].target, ast.Name)
+          and isinstance(x.body[0].iter, ast.Attribute) and src(x.body[0].iter.value) == x.target.id and x.body[0].iter.attr in CSET
+          and len(x.body[0].body) == 1)
+    if not ok:
+        fail("for plugin in plugins.values(): for other in plugin.<before|after>: <one statement>", x)
+    pl, other = x.target.id, x.body[0].target.id
+    invert = CSET[x.body[0].iter.attr]
+    c = x.body[0].body[0]
+    c = c.value if isinstance(c, ast.Expr) else None
+    ok = (isinstance(c, ast.Call) and isinstance(c.func, ast.Attribute) and c.func.attr == "add" and len(c.args) == 1 and not c.keywords
+          and isinstance(c.func.value, ast.Call) and src(c.func.value.func) == "dependencies.setdefault" and len(c.func.value.args) == 2
+          and not c.func.value.keywords and src(c.func.value.args[1]) == "set()")
+    if not ok:
+        fail("dependencies.setdefault(<key>, set()).add(<value>)", x)
+    key, val = src(c.func.value.args[0]), src(c.args[0])
+    if (key, val) == (other, pl + ".section"):
+        key_is_other = "true"
+    elif (key, val) == (pl + ".section", other):
+        key_is_other = "false"
+    else:
+        fail("setdefault key / added value must be the loop variable and plugin.section", x)
+    r = b[3]
+    want = "tuple((plugins[plugin_name]forplugin_nameintoposort_flatten(dependencies,sort=False)ifplugin_nameinplugins))"
+    if not isinstance(r, ast.Return) or src(r.value) != want:
+        fail("return tuple(plugins[plugin_name] for plugin_name in toposort_flatten(dependencies, sort=False) if plugin_name in plugins)", r)
+    return "\n".join([
+        "(* GENERATED on every run by py2coq from src/cobald/daemon/core/config.py -- do not edit *)",
+        "From Cobald Require Import model.Sections kit.SectionsIR.", "",
+        "Definition gen_dparams : dparams := mkDparams %s %s %s." % (init, invert, key_is_other), ""])
+
+
 UNITS = {"Gen_registry.v": gen_registry, "Gen_standardiser.v": gen_standardiser, "Gen_controllers.v": gen_controllers, "Gen_guard.v": gen_guard,
-         "Gen_composite.v": gen_composite, "Gen_factory.v": gen_factory, "Gen_decorators.v": gen_decorators}
+         "Gen_composite.v": gen_composite, "Gen_factory.v": gen_factory, "Gen_decorators.v": gen_decorators, "Gen_sections.v": gen_sections}
 
 
 def regen(repo, gendir, names=None):
